@@ -27,8 +27,8 @@
    empty literal a declaration is initialised with.  Those conversions are where the models are
    compared by witnesses below. *)
 From Coq Require Import List Bool String.
-From EvyV Require Import Base Ast Sem Static SemSound StaticTypes.
-From EvyV Require TypesSyntax TypesSpec.
+From EvyV Require Import Base Ast Sem Static SemSound StaticTypes StaticImpl.
+From EvyV Require TypesSyntax TypesSpec Types TypesProofs TypesWhole.
 From EvyV.Props Require C02.
 Import ListNotations.
 
@@ -226,6 +226,94 @@ Theorem C02_spec_handlers_partial : forall P,
 Proof. exact (fun P H => C02.C02_handlers_partial P (swt_program_wt P H)). Qed.
 Print Assumptions C02_spec_handlers_partial.
 
+(* ====================================================================== *)
+(* the IMPLEMENTATION model of the type checker (Types.tc / Types.check)   *)
+(* ====================================================================== *)
+(* C04 compares Types.v with the specification rule by rule; TypesWhole.v composes the rules over a
+   whole expression of the UNIFORM fragment [TW.uniform]: literals whose elements all have the same
+   type, variables / call results / asserted types closed, the left operand of a binary operator
+   without untyped empty leaf (or [] itself), index / field results closed and not taken from the
+   untyped [] / {} itself. *)
+Theorem C02_types_impl_spec_agree_partial : forall e, TW.uniform e = true ->
+  (forall k s, Sp.spec_tc e = Some (k, s) ->
+     exists n, T.tc e = T.ONode n false /\ TP.erase (T.node_type n) = s) /\
+  (forall n, T.tc e = T.ONode n false -> exists k, Sp.spec_tc e = Some (k, TP.erase (T.node_type n))).
+Proof.
+  exact (fun e Hu => conj
+    (fun k s Hs => match TW.tc_uniform e Hu k s Hs with
+                   | ex_intro _ n (conj Hn (conj _ (conj G2 _))) => ex_intro _ n (conj Hn G2) end)
+    (TW.tc_spec_agree e Hu)).
+Qed.
+Print Assumptions C02_types_impl_spec_agree_partial.
+
+(* the guard on index / field access is needed:  [][0] == [][0]  is typed bool by the implementation
+   (and accepted by the parser: it ends in the evy panic "index out of bounds"), the specification
+   gives  [][0]  no type *)
+Theorem C02_types_impl_guard_needed :
+  let e := S.EBin S.OpEq (S.EIndex (S.EArr []) S.ELitNum) (S.EIndex (S.EArr []) S.ELitNum) in
+  (exists n, T.tc e = T.ONode n false /\ T.node_type n = T.TBool) /\ Sp.spec_tc e = None.
+Proof. exact TW.not_empty_base_needed. Qed.
+Print Assumptions C02_types_impl_guard_needed.
+
+(* forward: Static-typed, coercion-free, uniform erasure => the implementation model types the
+   erased expression without error, with the same type *)
+Theorem C02_types_impl_forward_partial : forall F G A t e,
+  ety F G A = Some t -> plain F G A = true -> erase G A = Some e -> TW.uniform e = true ->
+  exists n, T.tc e = T.ONode n false /\ ty_of (TP.erase (T.node_type n)) = t.
+Proof. exact static_to_impl. Qed.
+Print Assumptions C02_types_impl_forward_partial.
+
+(* converse: the implementation model types the erasure without error => Static types the tree that
+   carries the specification's types, with the same type *)
+Theorem C02_types_impl_converse_partial : forall F G A e n,
+  ann_ok F G A = true -> erase G A = Some e -> TW.uniform e = true -> T.tc e = T.ONode n false ->
+  ety F G A = Some (ty_of (TP.erase (T.node_type n))).
+Proof. exact impl_to_static. Qed.
+Print Assumptions C02_types_impl_converse_partial.
+
+(* the statement contexts of [swt_stmt] are accepted by Types.check *)
+Theorem C02_types_impl_ctx_cond : forall F G c e,
+  sis F G c TBool = true -> erase G c = Some e -> TW.uniform e = true ->
+  T.check S.CCond e = T.Accept T.TBool T.TBool.
+Proof. exact impl_ctx_cond. Qed.
+Print Assumptions C02_types_impl_ctx_cond.
+
+Theorem C02_types_impl_ctx_decl : forall F G t a e,
+  sis F G a t = true -> ty_decl t = true -> erase G a = Some e -> TW.uniform e = true ->
+  exists T0 shown, T.check S.CDecl e = T.Accept T0 shown /\ ty_of (TP.erase T0) = t.
+Proof. exact impl_ctx_decl. Qed.
+Print Assumptions C02_types_impl_ctx_decl.
+
+Theorem C02_types_impl_ctx_value : forall F G t a e st,
+  ann_ok F G a = true -> sty_is G a t = true -> sty_of t = Some st -> erase G a = Some e -> TW.uniform e = true ->
+  exists shown,
+    T.check (S.CAssign st) e = T.Accept (T.fixed_type (T.embed st)) shown /\
+    T.check (S.CParam st) e = T.Accept (T.fixed_type (T.embed st)) shown /\
+    T.check (S.CVariadic st) e = T.Accept (T.fixed_type (T.embed st)) shown /\
+    T.check (S.CReturn st) e = T.Accept (T.embed st) shown.
+Proof. exact impl_ctx_value. Qed.
+Print Assumptions C02_types_impl_ctx_value.
+
+Theorem C02_types_impl_ctx_value_any : forall F G a' t' e,
+  arg_ann (ann_ok F G) G TAny (EAny a' t') = true -> erase G a' = Some e -> TW.uniform e = true ->
+  exists shown, T.check (S.CAssign S.SAny) e = T.Accept T.TAny shown.
+Proof. exact impl_ctx_value_any. Qed.
+Print Assumptions C02_types_impl_ctx_value_any.
+
+Theorem C02_types_impl_ctx_range : forall G y st t e,
+  spec_ty_of G y = Some st -> srange st = Some t -> erase G y = Some e -> TW.uniform e = true ->
+  exists T0, T.check S.CRange e = T.Accept T0 T0 /\ ty_of (TP.erase T0) = t.
+Proof. exact impl_ctx_range. Qed.
+Print Assumptions C02_types_impl_ctx_range.
+
+Theorem C02_types_impl_ctx_assign_to : forall F G tg st a e root steps,
+  target_of G tg = Some (root, steps) -> target_sty G tg = Some st -> S.closed root = true ->
+  TW.uniform_steps steps = true ->
+  ann_ok F G a = true -> sty_is G a (ty_of st) = true -> erase G a = Some e -> TW.uniform e = true ->
+  exists T0 shown, T.check (S.CAssignTo root steps) e = T.Accept T0 shown /\ TP.erase T0 = st.
+Proof. exact impl_ctx_assign_to. Qed.
+Print Assumptions C02_types_impl_ctx_assign_to.
+
 (* ---------- non-vacuity ---------- *)
 Local Open Scope string_scope.
 (* the example programs of C02 (loop, element assignment, any-wrapped arguments, generic built-in
@@ -265,4 +353,23 @@ Example C02_types_ex_expr :
                            (EGroup (EUn UMinus C02.n1)) in
   ety [] [[]] A = Some TNum /\ plain [] [[]] A = true /\ ann_ok [] [[]] A = true /\
   option_map Sp.spec_tc (erase [[]] A) = Some (Some (Sp.KConst, S.SNum)).
+Proof. vm_compute. repeat split; reflexivity. Qed.
+
+(* the implementation-model theorems on trees:  [1 2][0] + (-1)  as a condition operand
+   ([1 2][0] + (-1)) > 0 ,  and the target  m["k"][0]  of ex_ctx with its value  2  *)
+Example C02_types_ex_impl :
+  let A := EBin BGt TBool
+             (EGroup (EBin BPlus TNum (EIndex TNum (EArr (TArr TNum) [C02.n1; C02.n2]) C02.n0)
+                                      (EGroup (EUn UMinus C02.n1)))) C02.n0 in
+  let G := [[(s_ "m", TMap (TArr TNum))]] in
+  let tg := EIndex TNum (EIndex (TArr TNum) (EVar (s_ "m") (TMap (TArr TNum))) (EStr (s_ "k"))) C02.n0 in
+  sis [] [[]] A TBool = true /\
+  option_map TW.uniform (erase [[]] A) = Some true /\
+  option_map (T.check S.CCond) (erase [[]] A) = Some (T.Accept T.TBool T.TBool) /\
+  target_sty G tg = Some S.SNum /\
+  match target_of G tg with
+  | Some (root, steps) => TW.uniform_steps steps = true /\
+      T.check (S.CAssignTo root steps) S.ELitNum = T.Accept T.TNum T.TNum
+  | None => False
+  end.
 Proof. vm_compute. repeat split; reflexivity. Qed.
